@@ -59,7 +59,7 @@ def refute_variants(ctx: Ctx, rep: Report) -> None:
                             "requested end minus override shift compared with the absolute time reached"),
                            ("Simulator_ssreset.cfg", "AxisIncreasing",
                             "steady-state run does not advance the integrator")):
-        res = ctx.tlc("Simulator.tla", cfg, expect_violation=True)
+        res = ctx.tlc("Simulator.tla", cfg, expect_violation=True, workers=4)
         if res.violated != inv:
             raise MachineryError(f"wrong instance {cfg} should violate {inv} (got {res.violated}): the "
                                  "specification has lost its teeth")
@@ -81,7 +81,7 @@ def generate(ctx: Ctx, rep: Report) -> list:
     jobs = []
     if ctx.quick:
         jobs.append(("exh", "Simulator.tla", "Simulator_depth2.cfg", {},
-                     "all call histories of depth 2 over the 31-operation menu; 7 invariants at every state"))
+                     "all call histories of depth 2 over the 33-operation menu; 7 invariants at every state"))
         jobs.append(("exh3s", "Simulator.tla", "Simulator_depth3s.cfg", {},
                      "all call histories of depth 3 over the reduced 15-operation menu; 7 invariants at every state"))
         jobs.append(("deep", "Simulator.tla", "Simulator_deep.cfg",
@@ -89,7 +89,7 @@ def generate(ctx: Ctx, rep: Report) -> list:
                      "seeded -simulate behaviours of depth 8 (and the siblings of their last call)"))
     else:
         jobs.append(("exh", "Simulator.tla", "Simulator_depth3.cfg", {},
-                     "all call histories of depth 3 over the 31-operation menu; 7 invariants at every state"))
+                     "all call histories of depth 3 over the 33-operation menu; 7 invariants at every state"))
         jobs.append(("exh4", "Simulator.tla", "Simulator_depth4.cfg", {},
                      "all call histories of depth 4 over the reduced 15-operation menu; 7 invariants at every state"))
         jobs.append(("deep", "Simulator.tla", "Simulator_deep.cfg",
@@ -98,7 +98,7 @@ def generate(ctx: Ctx, rep: Report) -> list:
 
     def go(job):
         tag, mod, cfg, kw, _ = job
-        return ctx.tlc(mod, cfg, tag=tag, **kw)
+        return ctx.tlc(mod, cfg, tag=tag, **{"workers": 8, **kw})
 
     with ThreadPoolExecutor(len(jobs)) as ex:
         results = list(ex.map(go, jobs))
@@ -161,6 +161,16 @@ def read_then_continue(h: list) -> bool:
                 return True
             have = True
     return False
+
+
+def rendering_notes(rep: Report, outs: list) -> None:
+    """How the protocol tables of the replayed histories were written down (vacuity guard)."""
+    keys = ("protocol_key_order_varies", "protocol_step_omits_a_parameter", "protocol_by_make_protocol",
+            "protocol_by_hand_made_dataframe")
+    tot = {k: sum(st.get(k, 0) for _, st in outs) for k in keys}
+    rep.notes["protocol_tables_written"] = tot
+    if min(tot.values()) == 0:
+        raise MachineryError(f"vacuity: a way of writing protocol tables is never used: {tot}")
 
 
 def _replay(h):
@@ -303,8 +313,10 @@ def trace_direction(ctx: Ctx, rep: Report, prop: str, n: int, length: int, weigh
     rep.notes[f"traces_{tag}_by_rendering"] = dict(collections.Counter(t["rendering"] for t in ongrid))
     rep.notes[f"traces_{tag}_reading_views_between_calls"] = sum(
         1 for t in ongrid if any(e["vread"] and e["op"]["k"] in simkit.ADVANCING for e in t["ev"]))
-    if any(kinds[(k, False)] == 0 for k in ("sim", "tc", "proto", "ptc", "upd", "ov", "read")) or \
-            any(kinds[(k, True)] == 0 for k in ("sim", "tc")):
+    # (a tree on which many recorded sequences are cut short by a mismatch is judged by those mismatches)
+    if not rep.violations and not rep.known_hits and \
+            (any(kinds[(k, False)] == 0 for k in ("sim", "tc", "proto", "ptc", "upd", "ov", "read")) or
+             any(kinds[(k, True)] == 0 for k in ("sim", "tc"))):
         raise MachineryError(f"random driver ({tag}) does not exercise all calls: {dict(kinds)}")
     # binding teeth, code -> spec: corrupted copies of accepted traces must be rejected
     rnd = random.Random(ctx.seed)
@@ -415,6 +427,7 @@ def run(ctx: Ctx) -> int:
             worst = max(worst, stats.get("worst", 0.0))
             nvals += stats.get("n", 0)
     rep.notes["values_compared_with_closed_form"] = nvals
+    rendering_notes(rep, outs)
     rep.notes["worst_error_over_tolerance"] = round(worst, 4)
     rep.notes["fragile_rows_judged_at_integrator_atol(|x|<1e-1)"] = sum(st.get("fragile", 0) for _, st in outs)
     for h in hs[:: max(1, len(hs) // 3)][:3]:
